@@ -858,6 +858,20 @@ func (e *Env) callref(x *SExpr) Term {
 		}
 		return boolT(sOr(rs...))
 	}
+	if x.Name == "retfirst" || x.Name == "retlast" {
+		css, err := fe.findCalls(x.Str)
+		if err != nil {
+			e.fail("%v", err)
+		}
+		c := css[0]
+		if x.Name == "retlast" {
+			c = css[len(css)-1]
+		}
+		if len(c.rets) < 1 {
+			e.fail("call %s has no result", x.Str)
+		}
+		return c.rets[0]
+	}
 	var cs *CallSite
 	if e.curCall != nil && (x.Str == e.curName || x.Str == strings.SplitN(e.curName, "#", 2)[0]) {
 		cs = e.curCall
